@@ -356,6 +356,13 @@ func (api API) executeRequest(r *http.Request) *response {
 									Errors: []types.Error{*err},
 								}}
 						} else if relationship != nil {
+							if relationship.Data == nil {
+								// The resolver did not provide the linkage it was asked for.
+								return &response{
+									Document: types.ResponseDocument{
+										Errors: []types.Error{errorForHTTPStatus(http.StatusInternalServerError)},
+									}}
+							}
 							var data any = nil
 							var err *types.Error
 							switch ids := (*relationship.Data).(type) {
@@ -386,6 +393,13 @@ func (api API) executeRequest(r *http.Request) *response {
 									Errors: []types.Error{*err},
 								}}
 						} else if relationship != nil {
+							if relationship.Data == nil {
+								// The resolver did not provide the linkage it was asked for.
+								return &response{
+									Document: types.ResponseDocument{
+										Errors: []types.Error{errorForHTTPStatus(http.StatusInternalServerError)},
+									}}
+							}
 							if relatedId, ok := (*relationship.Data).(types.ResourceId); ok {
 								if relatedResourceType, ok := api.Schema.resourceTypes[relatedId.Type]; ok {
 									if doc := api.handlePatchResourceRequest(ctx, r, relatedResourceType, relatedId); doc != nil {
